@@ -148,6 +148,7 @@ class write_array:
     requires = lambda encoder, datum, schema, named_schemas, options: (
         encoder._fo.pos == len(encoder._fo.data)
         and A.TYPE(schema) == "array" and A.WF(schema, named_schemas)
+        and isinstance(datum, (list, tuple))     # bytes / bytearray data under an array schema: bounded stand-in only
         and A.CONFORMS(datum, schema, named_schemas, options)
         and not options.get("strict") and not options.get("strict_allow_default"))
     modifies = ["encoder._fo"]
@@ -232,6 +233,7 @@ class write_data:
     requires = lambda encoder, datum, schema, named_schemas, options: (
         encoder._fo.pos == len(encoder._fo.data)
         and A.WF(schema, named_schemas) and implies(isinstance(schema, dict), "logicalType" not in schema)
+        and A.NO_BYTES_ARRAYS(datum, schema, named_schemas)
         and A.CONFORMS(datum, schema, named_schemas, options)
         and not options.get("strict") and not options.get("strict_allow_default"))
     modifies = ["encoder._fo"]
